@@ -15,7 +15,7 @@ package main
 //   rt  <0/1 per run>                           GetCellRichText
 //   cf  <nFormula>                              GetConditionalFormats (cellIs rule)
 //   mc  <ref-hex> <col> <row>                   GetCellValue through mergeCellsParser
-//   mm  <x1,y1,x2,y2;…>                         GetMergeCells (mergeOverlapCells matrix)
+//   mm  <x1,y1,x2,y2;…>                         GetMergeCells: number of merged cells after the overlap normalisation
 //   ch  <len> <shift> <c1,c2,c3,c4>             Decrypt: compound file header check (directory-sector count varied)
 //   ag  <infoLen> <xmlOK> <nKE> <blockSize> <hashLen> <keyBits> <spin> <saltOK> <saltLen> <encOK> <encLen> <kdSaltOK> <pkgLen>   Decrypt (agile)
 // (-1 for a table count = table absent)
@@ -374,10 +374,11 @@ func (c *c14Ctx) opMM(rects [][4]int) {
 		spec = append(spec, fmt.Sprintf("%d,%d,%d,%d", r[0], r[1], r[2], r[3]))
 	}
 	res := c14Open(c14WithMerges(refs), func(f *xl.File) string {
-		if _, err := f.GetMergeCells("Sheet1"); err != nil {
+		mcs, err := f.GetMergeCells("Sheet1")
+		if err != nil {
 			return "ERR"
 		}
-		return "ok"
+		return "ok " + strconv.Itoa(len(mcs))
 	})
 	s := strings.Join(spec, ";")
 	if s == "" {
